@@ -674,7 +674,9 @@ impl<'p, 's, M: Matcher, W: WriteColor> Sink for SummarySink<'p, 's, M, W> {
             )?;
             count
         };
-        if is_multi_line {
+        // With inversion, the lines given to us are exactly the ones that
+        // don't contain a match, so there are only lines to count.
+        if is_multi_line && !searcher.invert_match() {
             self.match_count += sink_match_count;
         } else {
             self.match_count += 1;
